@@ -261,7 +261,7 @@ func boolRes(b bool) string {
 func (w *world) login() obs {
 	err := w.cl.Login("localhost", 25565)
 	if err == nil {
-		deadline := time.Now().Add(20 * time.Second)
+		deadline := time.Now().Add(90 * time.Second)
 		for time.Now().Before(deadline) {
 			if w.pl == nil {
 				w.pl = w.px.P.PlayerByName(w.name)
@@ -275,7 +275,7 @@ func (w *world) login() obs {
 			time.Sleep(3 * time.Millisecond)
 		}
 	}
-	o := w.settle(3 * time.Second)
+	o := w.settle(8 * time.Second)
 	if w.pl == nil {
 		o.alive = false
 	}
@@ -317,7 +317,7 @@ func (w *world) doOp(o op, stall int) obs {
 		return ob
 	}
 	var res []string
-	long := 15 * time.Second
+	long := 90 * time.Second
 	switch o.kind {
 	case "connect":
 		d := long
@@ -343,7 +343,7 @@ func (w *world) doOp(o op, stall int) obs {
 			c.Close()
 		}
 		// the proxy reacts on the backend connection's goroutine: wait for the end of the fallback walk
-		deadline := time.Now().Add(20 * time.Second)
+		deadline := time.Now().Add(90 * time.Second)
 		for time.Now().Before(deadline) {
 			if !w.pl.Active() {
 				break
@@ -357,13 +357,16 @@ func (w *world) doOp(o op, stall int) obs {
 	case "during":
 		before := len(w.bes[stall].Conns())
 		outer := make(chan string, 1)
-		d := 700 * time.Millisecond
-		if len(o.inner) > 1 {
-			d = 2500 * time.Millisecond // an inner request may be admitted (finding 2) and must finish first
-		}
-		go func() { outer <- w.connect(stall, d) }()
+		// the outer request's context is cancelled by the harness once the inner requests are done
+		// (no wall-clock race between the two under load); 90 s is only a watchdog
+		octx, ocancel := context.WithTimeout(context.Background(), 90*time.Second)
+		go func() {
+			r, err := w.pl.CreateConnectionRequest(w.rss[stall]).Connect(octx)
+			outer <- statusName(r, err)
+		}()
 		// once the stalling backend has accepted the connection the in-flight slot is taken
-		if bc := w.bes[stall].WaitConn(before, 5*time.Second); bc == nil {
+		if bc := w.bes[stall].WaitConn(before, 60*time.Second); bc == nil {
+			ocancel()
 			res = []string{"Switch.RSkipped", <-outer}
 			break
 		}
@@ -374,9 +377,10 @@ func (w *world) doOp(o op, stall int) obs {
 				res = append(res, w.connect(q.t, long))
 			}
 		}
+		ocancel()
 		res = append(res, <-outer)
 	}
-	ob := w.settle(3 * time.Second)
+	ob := w.settle(8 * time.Second)
 	ob.res = res
 	return ob
 }
@@ -495,7 +499,7 @@ func genSeq(r *lib.Rng, i int) *seqCase {
 }
 
 func runSeq(c *seqCase, idx int) {
-	w := newWorld(c.v, fmt.Sprintf("Q%d", idx), c.scripts, c.try, 1200)
+	w := newWorld(c.v, fmt.Sprintf("Q%d", idx), c.scripts, c.try, 4000)
 	defer w.close()
 	if w.setupErr != "" {
 		c.err = w.setupErr
@@ -579,13 +583,13 @@ func runCon(c *conCase, idx int) {
 			defer wg.Done()
 			<-start
 			inv := clock.Add(1)
-			res := w.connect(t, 15*time.Second)
+			res := w.connect(t, 90*time.Second)
 			c.calls[j] = call{t: t, res: res, inv: inv, ret: clock.Add(1)}
 		}(j, t)
 	}
 	close(start)
 	wg.Wait()
-	c.final = w.settle(2 * time.Second)
+	c.final = w.settle(8 * time.Second)
 	c.final.res = []string{"Switch.RNone"}
 	// evidence for the description: did two backend connections overlap?
 	type iv struct{ a, b int64 }
@@ -622,7 +626,7 @@ func main() {
 	rng := lib.NewRng(f.Seed)
 	out := lib.NewOut("C16", f)
 	out.Imports = "From Verif Require Import Model.Switch.\n"
-	out.Rule = "sequential histories: client family alternates 1.20.1 / 1.21.4 (sometimes 1.20.4); 3 scripted backends (per accepted connection: accept 58%, refuse 10%, kick in login 10%, kick in configuration 11% (pre-1.20.2 clients only; 1.20.2+ get a play kick instead), kick in play before JoinGame 11%) and in half of the histories a 4th backend that never answers the login; try list = ordered subset of the 3 (rarely with the stalling one); log in, then 4-7 operations drawn from Connect / ConnectWithIndication to a random backend, kick from or loss of the current backend, 1-2 requests issued one after the other while a request to the stalling backend is in flight, requests to the stalling backend (400 ms context); observation after each operation = (results, CurrentServer, Players() of every server, open backend connections per server, Active). concurrent histories: player on s0, 2-3 goroutines call Connect at once to random backends (s0 = current), logical-clock stamps + final observation. non-trivial = a sequential history with at least one successful switch and one failed attempt, or a concurrent history in which at least two calls were admitted or one was refused as in-progress; distinct = distinct case term"
+	out.Rule = "sequential histories: client family alternates 1.20.1 / 1.21.4 (sometimes 1.20.4); 3 scripted backends (per accepted connection: accept 58%, refuse 10%, kick in login 10%, kick in configuration 11% (pre-1.20.2 clients only; 1.20.2+ get a play kick instead), kick in play before JoinGame 11%) and in half of the histories a 4th backend that never answers the login; try list = ordered subset of the 3 (rarely with the stalling one); log in, then 4-7 operations drawn from Connect / ConnectWithIndication to a random backend, kick from or loss of the current backend, 1-2 requests issued one after the other while a request to the stalling backend is in flight, requests to the stalling backend (400 ms context; the outer request of a during-operation is cancelled by the harness after the inner ones); observation after each operation = (results, CurrentServer, Players() of every server, open backend connections per server, Active). concurrent histories: player on s0, 2-3 goroutines call Connect at once to random backends (s0 = current), logical-clock stamps + final observation. non-trivial = a sequential history with at least one successful switch and one failed attempt, or a concurrent history in which at least two calls were admitted or one was refused as in-progress; distinct = distinct case term"
 	nSeq := f.Count(44)
 	nCon := f.Count(20)
 	seqs := make([]*seqCase, nSeq)
@@ -634,6 +638,9 @@ func main() {
 		cons[i] = genCon(rng.Fork(), i)
 	}
 	e2eb.RunParallel(nSeq+nCon, 16, func(i int) int {
+		if f.Only >= 0 && f.Only != i {
+			return 0 // replay / reconfirmation of one case: generated as always, not run
+		}
 		if i < nSeq {
 			runSeq(seqs[i], i)
 		} else {
@@ -651,6 +658,10 @@ func main() {
 }
 
 func emitSeq(out *lib.Out, i int, c *seqCase) {
+	if !out.Wanted() {
+		out.Add("skipped", nil, false)
+		return
+	}
 	if c.err != "" {
 		out.GoViolation(map[string]any{"known": nil, "index": -1, "what": "C16 sequential history could not be set up", "history": i, "error": c.err})
 		c.ops, c.obs = nil, nil
@@ -703,6 +714,10 @@ func emitSeq(out *lib.Out, i int, c *seqCase) {
 }
 
 func emitCon(out *lib.Out, i int, c *conCase) {
+	if !out.Wanted() {
+		out.Add("skipped", nil, false)
+		return
+	}
 	if c.err != "" {
 		out.GoViolation(map[string]any{"known": nil, "index": -1, "what": "C16 concurrent history could not be set up", "history": i, "error": c.err})
 		c.calls = nil
